@@ -181,7 +181,7 @@ def check_case(case: Dict[str, Any]) -> Tuple[List[Violation], Set[str], Dict[st
     from nrel.hive.model.sim_time import SimTime
     from nrel.hive.state.driver_state.human_driver_state.human_driver_state import HumanAvailable, HumanUnavailable
     from nrel.hive.state.simulation_state import simulation_state_ops as ops
-    from hv.worlds import SITE_POOL
+    from hv.worlds import _site
 
     out: List[Violation] = []
     flags: Set[str] = set()
@@ -195,8 +195,8 @@ def check_case(case: Dict[str, Any]) -> Tuple[List[Violation], Set[str], Dict[st
         # requests
         reqs = []
         for q in case["reqs"]:
-            og = h3.geo_to_h3(*SITE_POOL[w["sites"][q["o"]]], 15)
-            dg = h3.geo_to_h3(*SITE_POOL[w["sites"][q["d"]]], 15)
+            og = h3.geo_to_h3(*_site(w, q["o"]), 15)
+            dg = h3.geo_to_h3(*_site(w, q["d"]), 15)
             r = Request.build(q["id"], og, dg, sim.road_network, SimTime(0), 1, False, fleet_id=q["fleet"], value=q["value"])
             reqs.append((q, r))
         vids = sorted(sim.vehicles.keys())
